@@ -23,7 +23,7 @@ me="$(basename "$0")"
 if [[ "$1" == "--config" ]]; then cat "$ctl/$me.cfg"; exit 0; fi
 n=$(cat "$ctl/counter"); echo $((n+1)) > "$ctl/counter"
 item=$(sed -n "$((n+1))p" "$ctl/script")
-jq -r --arg me "$me" '.[0] | $me + " " + .fromVersion + ">" + .toVersion + "[" + ([(.review.request.objects // [])[] | (.metadata.name + "@" + .apiVersion)] | join(",")) + "]"' "$BINDING_CONTEXT_PATH" >> "$ctl/log"
+jq -r --arg me "$me" '.[0] | $me + "#" + (.binding // "") + " " + .fromVersion + ">" + .toVersion + "[" + ([(.review.request.objects // [])[] | (.metadata.name + "@" + .apiVersion)] | join(",")) + "]"' "$BINDING_CONTEXT_PATH" >> "$ctl/log"
 group=$(cat "$ctl/group"); desired=$(cat "$ctl/desired")
 to=$(jq -r '.[0].toVersion' "$BINDING_CONTEXT_PATH")
 case "$to" in */*) fullto="$to";; *) fullto="$group/$to";; esac
@@ -66,6 +66,7 @@ type c15E2E struct {
 	More    []c15Req
 	Rules   []c15Rule
 	Owner   []int // hook number per rule
+	Bind    []int // binding number (within its hook) per rule; nil = one binding per hook
 	NHooks  int
 	From    string // apiVersion of the request objects (full spelling)
 	Desired string
@@ -108,17 +109,43 @@ func c15RunE2E(r *Run, c *Case, e c15E2E) {
 	}
 	defer os.RemoveAll(root)
 	hookName := func(h int) string { return fmt.Sprintf("h%d.sh", h) }
+	bindOf := func(i int) int {
+		if i < len(e.Bind) {
+			return e.Bind[i]
+		}
+		return 0
+	}
+	bindName := func(h, b int) string { return fmt.Sprintf("conv%d_%d", h, b) }
+	maxBind := 0
+	for i := range e.Rules {
+		if bindOf(i) > maxBind {
+			maxBind = bindOf(i)
+		}
+	}
+	splitHooks := 0
 	for h := 0; h < e.NHooks; h++ {
-		var convs []string
-		for i, rl := range e.Rules {
-			if e.Owner[i] == h {
-				convs = append(convs, fmt.Sprintf(`{"fromVersion": %q, "toVersion": %q}`, rl.From, rl.To))
+		// one kubernetesCustomResourceConversion binding per binding number that has rules, all for
+		// the same CRD (the shape of pkg/hook/testdata/hook_manager_conversion_chains/hook.sh)
+		var bindings []string
+		for b := 0; b <= maxBind; b++ {
+			var convs []string
+			for i, rl := range e.Rules {
+				if e.Owner[i] == h && bindOf(i) == b {
+					convs = append(convs, fmt.Sprintf(`{"fromVersion": %q, "toVersion": %q}`, rl.From, rl.To))
+				}
+			}
+			if len(convs) > 0 {
+				bindings = append(bindings, fmt.Sprintf(`{"name":%q,"crdName":"things.g.io","conversions":[%s]}`,
+					bindName(h, b), strings.Join(convs, ",")))
 			}
 		}
-		if len(convs) == 0 {
+		if len(bindings) == 0 {
 			continue
 		}
-		cfg := fmt.Sprintf(`{"configVersion":"v1","kubernetesCustomResourceConversion":[{"name":"conv%d","crdName":"things.g.io","conversions":[%s]}]}`, h, strings.Join(convs, ","))
+		if len(bindings) > 1 {
+			splitHooks++
+		}
+		cfg := fmt.Sprintf(`{"configVersion":"v1","kubernetesCustomResourceConversion":[%s]}`, strings.Join(bindings, ","))
 		_ = os.WriteFile(filepath.Join(ctl, hookName(h)+".cfg"), []byte(cfg), 0o644)
 		// a hard link to the one script written before the parallel cases start: writing an
 		// executable while another case forks gives "text file busy"
@@ -211,8 +238,14 @@ func c15RunE2E(r *Run, c *Case, e c15E2E) {
 		}
 		// the hook runs, in order
 		owner := map[string]string{}
+		nonLast := map[string]bool{} // rules of a binding that is not the last one of its hook
 		for i, rl := range e.Rules {
-			owner[rl.String()] = hookName(e.Owner[i])
+			for j := range e.Rules {
+				if e.Owner[j] == e.Owner[i] && bindOf(j) > bindOf(i) {
+					nonLast[rl.String()] = true
+				}
+			}
+			owner[rl.String()] = hookName(e.Owner[i]) + "#" + bindName(e.Owner[i], bindOf(i))
 		}
 		var inv []string
 		logB, _ := os.ReadFile(filepath.Join(ctl, "log"))
@@ -233,7 +266,10 @@ func c15RunE2E(r *Run, c *Case, e c15E2E) {
 			entry = strings.ReplaceAll(entry, "@]", "@-]")
 			ruleTok := entry[:strings.IndexByte(entry, '[')]
 			if owner[ruleTok] != f[0] {
-				entry = "ran-in-a-hook-that-did-not-register-it:" + f[0] + ":" + entry
+				entry = "ran-in-a-hook-or-binding-that-did-not-register-it:" + f[0] + ":" + entry
+			}
+			if nonLast[ruleTok] {
+				c.Note("e2e:ran-a-rule-of-a-non-last-binding")
 			}
 			inv = append(inv, entry)
 		}
@@ -257,6 +293,11 @@ func c15RunE2E(r *Run, c *Case, e c15E2E) {
 			return ""
 		}())
 		c.Note(fmt.Sprintf("e2e:runs=%d", len(inv)))
+		if splitHooks > 0 {
+			c.Note("e2e:bindings:a-hook-splits-the-crd's-rules-over-several-bindings")
+		} else {
+			c.Note("e2e:bindings:one-per-hook")
+		}
 		for _, s := range e.Script {
 			c.Note("e2e:script:" + s[:1])
 		}
@@ -320,6 +361,19 @@ func c15E2ECorpus(r *Run) {
 		rules := []c15Rule{{"v1", "v2"}, {"v2", "v3"}, {"v3", "v4"}}
 		c15RunE2E(r, c, c15E2E{Rules: rules, Owner: []int{0, 0, 0}, NHooks: 1, From: "g.io/v1", Desired: "g.io/v4", NObjs: 1,
 			Script: []string{"k2", "x", "k1"}})
+	})
+	updown := []c15Rule{{"v1", "v2"}, {"v2", "v3"}, {"v3", "v2"}, {"v2", "v1"}, {"v3", "v4"}}
+	r.One(14, func(c *Case, _ *Rng) {
+		c.Desc = "corpus: one hook declares the up and the down conversions of the CRD in two bindings; up, down and across"
+		c15RunE2E(r, c, c15E2E{Rules: updown, Owner: []int{0, 0, 0, 0, 1}, Bind: []int{0, 0, 1, 1, 0}, NHooks: 2,
+			From: "g.io/v1", Desired: "g.io/v3", NObjs: 2, Script: []string{"k2", "k2"},
+			More: []c15Req{{"g.io/v3", "g.io/v1", 1, []string{"k1", "k1"}}, {"g.io/v1", "g.io/v4", 1, []string{"k1", "k1", "k1"}}}})
+	})
+	r.One(15, func(c *Case, _ *Rng) {
+		c.Desc = "corpus: three bindings of one hook for one CRD, the middle step of the chain is in the first binding"
+		rules := []c15Rule{{"v1", "v2"}, {"g.io/v2", "v3"}, {"v3", "v4"}}
+		c15RunE2E(r, c, c15E2E{Rules: rules, Owner: []int{0, 0, 0}, Bind: []int{2, 0, 1}, NHooks: 1,
+			From: "g.io/v1", Desired: "g.io/v4", NObjs: 1, Script: []string{"k1", "k1", "k1"}})
 	})
 }
 
@@ -423,6 +477,17 @@ func c15E2ERandom(r *Run) {
 		e.NHooks = rng.Range(1, 3)
 		for range e.Rules {
 			e.Owner = append(e.Owner, rng.Intn(e.NHooks))
+		}
+		// the rules a hook owns are declared in one binding, or spread over up to three bindings
+		// for the same CRD (up_conversions / down_conversions …)
+		if rng.Chance(65) {
+			nb := make([]int, e.NHooks)
+			for h := range nb {
+				nb[h] = rng.Range(1, 3)
+			}
+			for i := range e.Rules {
+				e.Bind = append(e.Bind, rng.Intn(nb[e.Owner[i]]))
+			}
 		}
 		c15RunE2E(r, c, e)
 	})
